@@ -163,6 +163,20 @@ func monitorsC16(out *Outcome, c *Controller, w *World, base int) {
 			out.viol("C16", "panic:"+h.Kind, "a call panicked", h.Res.Panic)
 		}
 	}
+	// (1b) a plain CRUD call never fails with a transaction-bookkeeping error: that would mean another
+	// client's call (or the engine) took its transaction away
+	for _, h := range out.History {
+		if h.Sess != 0 || h.InWtx {
+			continue
+		}
+		switch h.Kind {
+		case "ins", "inc", "fau", "upd0", "dup", "bad", "find":
+			switch h.Res.Cls {
+			case "noActive", "mismatch", "existing", "nested", "missingTxn":
+				out.viol("C16", "spurious-txn-error", "a plain call failed with a transaction bookkeeping error", fmt.Sprintf("actor %d %s: %s", h.Actor, h.Kind, h.Res.Cls))
+			}
+		}
+	}
 	// (2) at most one write transaction at a time: e.txn never changes from one transaction to
 	// another without passing through nil; acquired tokens minus releases stays within {0,1}
 	var prev uintptr
